@@ -47,6 +47,41 @@ def write_undecided(prop, tier, reason, wall):
 
 VERUS_UNITS = {}
 
+ZDD_ASSUME = [
+    "R2: rustc_hash FxHashMap/FxHashSet behave as mathematical maps/sets keyed by structural equality (derived Hash/Eq of ZddRef, ZddNode, tuples)",
+    "R3: derived Ord on ZddRef is an arbitrary deterministic total function (proofs hold for either answer)",
+    "A1: node ids never wrap: the table holds fewer than 2^32-2 nodes (machine arithmetic treated as mathematical at `len as u32`)",
+    "derived Clone of UniqueTable yields an equal table (assumed clone contract) — used by the standalone Zdd operations only",
+    "Not under any verifier: ZddArena::from_set, ZddArena::contains (sort_unstable/dedup), ZddArena::gc top-level glue (closure with captured &mut), "
+    "SharedArena lock wrappers, Zdd::to_sets / Iterator trait impls (only the inherent `next` bodies are verified)",
+]
+
+def zdd_witness(scratch):
+    """native differential search over <= 3 variables on the real varpulis-zdd API; attaches inputs, decides nothing"""
+    wdir = os.path.join(VERIF, "witness/zdd")
+    tgt = os.path.join(scratch, "wit-target")
+    rc, out = vpv.sh(["cargo", "build", "--offline", "--release"], cwd=wdir, env={"CARGO_TARGET_DIR": tgt}, timeout=900)
+    if rc != 0:
+        return dict(found=False, note="witness finder did not build: " + out[-400:])
+    rc, out = vpv.sh([os.path.join(tgt, "release/vpv-zdd-witness"), "3"], timeout=600)
+    m = re.search(r"^WITNESS (.*)$", out, re.M)
+    if m:
+        return dict(found=True, input=m.group(1), cmd="cd /verif/witness/zdd && cargo run --release -- 3")
+    if rc != 0 and "NO-WITNESS" not in out:
+        return dict(found=True, input="real code panicked: " + out[-600:], cmd="cd /verif/witness/zdd && cargo run --release -- 3")
+    return dict(found=False, note=out.strip()[-300:])
+
+
+def _zdd_unit(prop, explanation, level="proof"):
+    return dict(witness=zdd_witness, prop=prop, template="contracts/verus/zdd.rs.tmpl", gen_name="zdd", ledger="obligations/zdd.json",
+                explanation=explanation, level=level, assumptions=ZDD_ASSUME)
+
+VERUS_UNITS["C06"] = _zdd_unit("C06",
+    "Each listed function of crates/varpulis-zdd is extracted mechanically from /repo on this run and verified by Verus against a contract "
+    "stated over the WHOLE denoted family: mem(nodes, result, s) <=> (set-algebra of mem of the operands) for every set s, for every table, "
+    "every cache state and every recursion depth (unbounded, with termination). One obligation = one function's verification condition "
+    "(requires/ensures/invariants/decreases).")
+
 
 def run(prop, tier, dev=False, only=None):
     t0 = time.time()
